@@ -51,6 +51,10 @@ package types
 //@   requires tx != nil && source != nil && source.off <= uint64(len(source.s))
 //@   modifies *tx, source.off
 //@   ensures source.off <= uint64(len(source.s))
+//@   -- oversize transactions are refused by the decoder itself (also inside a block): a decoded transaction,
+//@   -- signatures included, takes at most MAX_TX_SIZE bytes, and those bytes are kept as its raw form
+//@   ensures[c02-size] result == nil ==> source.off >= old(source.off) && source.off - old(source.off) <= MAX_TX_SIZE
+//@   ensures[c02-raw] result == nil ==> uint64(len(tx.Raw)) == source.off - old(source.off)
 //@   loop 1 invariant 0 <= i && uint64(len(sigs)) == l && source.off >= pos && source.off <= uint64(len(source.s))
 //@   loop 1 modifies fresh
 
